@@ -174,6 +174,8 @@ class Impl:
             vals = [np.nan if v == "nan" else float(F(v)) for _, v in rows]
             if o.get("vdtype") == "int" and all(v != "nan" and F(v).denominator == 1 for _, v in rows):
                 vals = [int(F(v)) for _, v in rows]
+            if o.get("vdtype") == "bool" and all(v in ("0", "1") for _, v in rows):
+                vals = [v == "1" for _, v in rows]
             ser = pd.Series(vals, index=pd.Index(idx))
             self.env[r] = sc.Stairs.from_values(
                 initial_value=num(None if init == "nan" else F(init)), values=ser,
